@@ -79,36 +79,21 @@ theorem getLast?_eq_getElem {α : Type} (l : List α) (h : l ≠ []) :
   have := length_pos_of_ne_nil l h
   simp [List.getElem?_eq_getElem (show l.length - 1 < l.length by omega)]
 
-/-- `ParseChainID` panics exactly when the regex accepts the chain id but its last segment does not
-    fit in a uint64 -/
-theorem parseChainID_noPanic_iff (L : Lib) (hs : L.SplitNonEmpty) (s : Str) :
-    G.NoPanic (parseChainID L s) ↔
-      (L.isRevisionFormat s = true → ∃ seg n, lastSeg L s = some seg ∧ L.parseUint seg = some n) := by
+/-- `ParseChainID` never panics (since fix 011a55d the unparsable-suffix branch returns 0) -/
+theorem parseChainID_noPanic (L : Lib) (hs : L.SplitNonEmpty) (s : Str) : G.NoPanic (parseChainID L s) := by
   unfold parseChainID
-  have hne := hs s ['-'] dash_ne_nil
-  have hpos := length_pos_of_ne_nil _ hne
-  have hl := getLast?_eq_getElem _ hne
-  by_cases hf : L.isRevisionFormat s = true
-  · simp only [hf, Bool.not_true, Bool.false_eq_true, if_false, forall_const]
+  split
+  · exact G.noPanic_ok _
+  · have hne := hs s ['-'] dash_ne_nil
+    have hpos := length_pos_of_ne_nil _ hne
+    dsimp only
     rw [lastIndex_ok _ hne]
     simp only [G.bind_ok]
     rw [index_ok' _ _ (by omega)]
-    simp only [G.bind_ok, lastSeg, hl]
-    cases hp : L.parseUint ((L.split s ['-'])[(L.split s ['-']).length - 1]) with
-    | none =>
-      simp only [G.goPanic]
-      constructor
-      · intro h; exact absurd rfl (h _)
-      · rintro ⟨seg, n, h1, h2⟩
-        cases h1
-        rw [hp] at h2; cases h2
-    | some n =>
-      constructor
-      · intro _; exact ⟨_, n, rfl, hp⟩
-      · intro _; exact G.noPanic_ok _
-  · have : L.isRevisionFormat s = false := by simpa using hf
-    simp only [this, Bool.not_false, if_true, Bool.false_eq_true, false_implies, iff_true]
-    exact G.noPanic_ok _
+    simp only [G.bind_ok]
+    split
+    · exact G.noPanic_ok _
+    · exact G.noPanic_ok _
 
 theorem setRevisionNumber_noPanic (L : Lib) (hs : L.SplitNonEmpty) (s : Str) (r : Nat) :
     G.NoPanic (setRevisionNumber L s r) := by
